@@ -45,18 +45,47 @@ Definition dd x e b := {| d_exec := x; d_eh := e; d_bt := b |}.
 Definition rd x e b k m := {| r_exec := x; r_eh := e; r_bt := b; r_backend := k; r_matchers_ok := m |}.
 Definition cs p d r o := {| c_proxy := p; c_def := d; c_rule := r; c_obs := o |}.
 
-(** second stream: the same definitions as YAML text through the real rule-set
-    parser, rule-set processor and repository.  The parser's validation rejects a
-    rule without any `execute` step, or with an empty method name, before the
-    factory sees it. *)
-Definition load_ruleset (impl_fixed : bool) (c : case) : load_res :=
-  match load impl_fixed (c_proxy c) (c_def c) (c_rule c) with
-  | Loaded r => if is_nil (r_exec (c_rule c)) || negb (r_matchers_ok (c_rule c))
-                then Loaded Rejected else Loaded r
-  | other => other
+(** second stream: rule sets of 1..3 definitions as YAML text through the real
+    rule-set parser, rule-set processor and repository.  The parser's validation
+    rejects a rule without any `execute` step, or with an empty method name,
+    before the factory sees any rule of the set. *)
+Inductive set_res := SFactoryFailed | SFactoryPanic | SLoaded (r : res (list effective)).
+
+Record case_rs := {
+  s_proxy : bool; s_def : option default_def; s_rules : list rule_def; s_obs : set_res }.
+
+Definition parse_ok (r : rule_def) : bool := negb (is_nil (r_exec r)) && r_matchers_ok r.
+
+Definition load_ruleset (impl_fixed : bool) (c : case_rs) : set_res :=
+  let go (def : option effective) :=
+    if forallb parse_ok (s_rules c) then SLoaded (load_rules impl_fixed (s_proxy c) def (s_rules c))
+    else SLoaded Rejected in
+  match s_def c with
+  | None => go None
+  | Some dd => match init_default dd with
+               | Ok e => go (Some e)
+               | Rejected => SFactoryFailed
+               | Panic => SFactoryPanic
+               end
   end.
 
-Definition check_rs (impl_fixed : bool) (c : case) : verdict :=
-  {| v_corr := load_res_eqb (load_ruleset impl_fixed c) (c_obs c);
-     v_prop := load_res_eqb (load_ruleset true c) (c_obs c);
-     v_guards := guards [(1%Z, g_F1 c && negb impl_fixed)] |}.
+Definition set_res_eqb (a b : set_res) : bool :=
+  match a, b with
+  | SFactoryFailed, SFactoryFailed | SFactoryPanic, SFactoryPanic => true
+  | SLoaded (Ok x), SLoaded (Ok y) => list_eqb effective_eqb x y
+  | SLoaded Rejected, SLoaded Rejected | SLoaded Panic, SLoaded Panic => true
+  | _, _ => false
+  end.
+
+Definition g_F1_rs (c : case_rs) : bool :=
+  match s_def c with
+  | None => existsb (fun r => match r_bt r with Some true => true | _ => false end) (s_rules c)
+  | Some _ => false
+  end.
+
+Definition check_rs (impl_fixed : bool) (c : case_rs) : verdict :=
+  {| v_corr := set_res_eqb (load_ruleset impl_fixed c) (s_obs c);
+     v_prop := set_res_eqb (load_ruleset true c) (s_obs c);
+     v_guards := guards [(1%Z, g_F1_rs c && negb impl_fixed)] |}.
+
+Definition crs p d rs o := {| s_proxy := p; s_def := d; s_rules := rs; s_obs := o |}.
